@@ -939,6 +939,16 @@ def _hash(interp, args, kwargs):
     return hash(x)
 
 
+@model(open)
+def _open(interp, args, kwargs):
+    hook = getattr(interp.ctx, "open_file", None)
+    if hook is not None:
+        return hook(interp, args, kwargs)
+    if is_sym(args) or is_sym(kwargs):
+        raise Unsupported("open() of a symbolic path")
+    return interp.native(open, args, kwargs)
+
+
 @model(type)
 def _type(interp, args, kwargs):
     if len(args) == 1 and isinstance(args[0], Sym):
